@@ -77,6 +77,15 @@ SOURCE_CALLS_IDENTITY = (
 )
 
 
+ITER_NAMES = {
+    "into_iter", "iter", "iter_mut", "enumerate", "rev", "skip", "take", "step_by", "map", "filter", "filter_map", "flat_map",
+    "flatten", "cloned", "copied", "zip", "chain", "peekable", "skip_while", "take_while", "inspect", "by_ref", "fuse", "cycle",
+    "drain", "keys", "values", "values_mut", "into_keys", "into_values", "chars", "bytes", "char_indices", "split", "rsplit",
+    "splitn", "rsplitn", "split_whitespace", "lines", "windows", "chunks", "deref", "deref_mut", "as_slice", "as_ref", "borrow",
+    "clone", "to_vec", "into_vec", "into_boxed_slice", "sorted",
+}
+
+
 def iterator_chain(t):
     """peel iterator adaptors: returns (source term, [call paths applied, innermost first])."""
     chain = []
@@ -89,7 +98,7 @@ def iterator_chain(t):
                 t = P.strip(alts[0], calls=False)
                 continue
             return t, chain
-        if t[0] == "call" and t[2]:
+        if t[0] == "call" and t[2] and t[1].rsplit("::", 1)[-1] in ITER_NAMES:
             chain.append(t[1])
             t = P.strip(t[2][0], calls=False)
             continue
